@@ -193,7 +193,7 @@ PROPERTIES.update({
     },
     "C10": {
         "level": "proof",
-        "verus": [("u03_chunk", "*"), ("u24_changeparse", ["parse_following_header", "actor_id", "lemma_contk"])],
+        "verus": [("u03_chunk", "*"), ("u24_changeparse", ["parse_following_header", "verify_ops", "actor_id", "lemma_contk"])],
         "kani": ["u03_leb128_writer_matches_parser", "u03_header_parse_q", "u03_header_parse_t", "u03_header_roundtrip_0", "u03_header_roundtrip_3", "u03_checksum_valid"],
         "not_under_contract": ["ChangeCollector (rebuilding changes from columns)", "get_changes ordering", "Change::raw_bytes bookkeeping", "sha2::Sha256 (uninterpreted)"],
         "trusted": ["sha2::Sha256 as an uninterpreted function of the bytes fed to it", "leb128 crate writer contract (backed by K harness u03_leb128_writer_matches_parser for all u64)"],
@@ -207,7 +207,7 @@ PROPERTIES.update({
         "verus": [("u02_parse", ["take_1", "take_n", "take_4", "take1", "take4", "rest", "take_rest", "leb128_u64", "leb128_u32", "new", "lift", "split", "truncate", "skip", "reset", "is_empty"]),
                   ("u13_load", ["load_changes", "reset", "is_empty"]),
                   ("u14_loadopts", ["load_with_options_and_mark_validation"]), ("u20_chunkparse", ["parse", "data_bytes", "bytes"]), ("u22_loadnext", "*"),
-                  ("u24_changeparse", ["parse_following_header", "actor_id", "lemma_contk"])],
+                  ("u24_changeparse", ["parse_following_header", "verify_ops", "actor_id", "lemma_contk"])],
         "kani": ["u03_header_parse_q", "u03_header_parse_t", "u03_header_parse_long"],
         "not_under_contract": ["one exit of load_next_change (document chunk that fails to reconstruct: this Verus loses a `&mut` parameter at a `return` inside a match with a guarded arm)", "chunk bodies (Document::parse, Change::parse_following_header, BundleStorage::parse_following_header: assumed stubs), Document::reconstruct, Change::new_from_unverified (assumed stubs)",
                                "Automerge::apply_changes (assumed: appends the given changes)"],
@@ -267,7 +267,7 @@ PROPERTIES.update({
     "C15": {
         "level": "proof",
         "verus": [("u02_parse", "*"), ("u01_bloom", ["parse", "get_probes", "contains_hash", "add_hash", "set_bit"]), ("u04_ids", ["exid_to_opid", "op_cursor_to_opid", "new"]),
-                  ("u04c_codecs", ["try_from", "parse_0"]), ("u06v_hexane_str", "*"), ("u15_colids", ["try_next", "try_load", "new", "root", "from"]), ("u19_import", "*"), ("u28_valuemeta", "*"), ("u29_hexane_prefix", "*"), ("u30_legacy_rle", "*")],
+                  ("u04c_codecs", ["try_from", "parse_0"]), ("u06v_hexane_str", "*"), ("u15_colids", ["try_next", "try_load", "new", "root", "from"]), ("u19_import", "*"), ("u28_valuemeta", "*"), ("u29_hexane_prefix", "*"), ("u30_legacy_rle", "*"), ("u24_changeparse", ["verify_ops", "parse_following_header", "actor_id"])],
         "kani": ["u04_changehash_try_from_slice", "u15_try_load_total", "u15_raw_read_bytes", "u17_from_raw_string_valid", "u02k_length_prefixed_total", "u02k_apply_n_total", "u06_codec_reads_agree", "u01_parse_wf_quick", "u01_parse_wf_thorough", "u01_query_total", "u03_header_parse_q", "u03_header_parse_t", "u03_chunktype_codes",
                  "u04_exid_try_from_total_q", "u04_exid_try_from_total_t", "u04_cursor_from_str_total_q",
                  "u05_flags_parse_bytes",
